@@ -326,6 +326,10 @@ ReaderRejects ==
 
 ASSUME ReaderRejects
 
+(* negative control (HttpCodec_MC_Neg.cfg substitutes it for BDict): a writer *)
+(* that keeps the order in which the pairs are listed                         *)
+BDictUnsorted(pairs) == <<100>> \o FlatPairs(pairs, 1) \o <<101>>
+
 ----------------------------------------------------------------------------
 
 Cases == UrlCasesN \cup QueryCases \cup ReqCases \cup ReplyCases
